@@ -19,6 +19,9 @@ type variantMeta struct {
 	Kind       string   `json:"kind"`
 	Properties []string `json:"properties"`
 	Property   string   `json:"property"` // seeded mutants
+	// Residual: properties whose check is known to raise a false alarm on this benign
+	// variant (documented in DESIGN.md §12); reported separately, never counted as silent.
+	Residual []string `json:"residual"`
 }
 
 type selftestResult struct {
@@ -26,13 +29,17 @@ type selftestResult struct {
 	FiredAsExpected  int      `json:"fired_as_expected"`
 	SilentAsExpected int      `json:"silent_as_expected"`
 	Skipped          int      `json:"skipped_patch_does_not_apply"`
+	ResidualAlarms   []string `json:"documented_residual_false_alarms"`
 	Unexpected       []string `json:"unexpected"`
 	Variants         []string `json:"variants"`
 }
 
 func runSelftest(r *Run) *selftestResult {
 	res := &selftestResult{}
-	type job struct{ name, patch, kind string }
+	type job struct {
+		name, patch, kind string
+		residual         bool
+	}
 	var jobs []job
 	metas, _ := filepath.Glob(filepath.Join(r.Verif, "selftest", "variants", "*.json"))
 	for _, m := range metas {
@@ -46,13 +53,19 @@ func runSelftest(r *Run) *selftestResult {
 		}
 		for _, p := range vm.Properties {
 			if p == r.Property {
-				jobs = append(jobs, job{vm.Name, strings.TrimSuffix(m, ".json") + ".patch", vm.Kind})
+				res := false
+				for _, q := range vm.Residual {
+					if q == p {
+						res = true
+					}
+				}
+				jobs = append(jobs, job{vm.Name, strings.TrimSuffix(m, ".json") + ".patch", vm.Kind, res})
 			}
 		}
 	}
 	seeds, _ := filepath.Glob(filepath.Join(r.Verif, "seeded", r.Property+"-*", "patch.diff"))
 	for _, s := range seeds {
-		jobs = append(jobs, job{"seeded/" + filepath.Base(filepath.Dir(s)), s, "breaking"})
+		jobs = append(jobs, job{"seeded/" + filepath.Base(filepath.Dir(s)), s, "breaking", false})
 	}
 	sort.Slice(jobs, func(i, j int) bool { return jobs[i].name < jobs[j].name })
 	self, err := os.Executable()
@@ -99,6 +112,8 @@ func runSelftest(r *Run) *selftestResult {
 				res.FiredAsExpected++
 			case j.kind == "benign" && code == 0:
 				res.SilentAsExpected++
+			case j.kind == "benign" && j.residual:
+				res.ResidualAlarms = append(res.ResidualAlarms, fmt.Sprintf("%s: exit=%d", j.name, code))
 			default:
 				res.Unexpected = append(res.Unexpected, fmt.Sprintf("%s [%s]: exit=%d", j.name, j.kind, code))
 			}
